@@ -133,13 +133,13 @@ pub fn edits(src: &str) -> Vec<Edit> {
         if let Some(n) = next {
             let n_is_nl = n.tok == Tok::End && &src[n.start..n.end] == "\n";
             if n_is_nl && !gap.contains('#') {
-                for c in [" # c é€😀 x := 1", "#\" ${ ; # \\"] {
+                for c in [" # c é€😀 x := 1", "#\" ${ ; # \\", " # a\r b := 2 )"] {
                     out.push(mk(splice(src, t.end, 0, c), format!("comment {:?} before the newline after token {}", c, i), EditKind::Neutral, t.end, 0, c.len()));
                 }
             }
         }
         if (is_cont(t) || is_end) && !gap.contains('#') {
-            for c in ["# é c\n", "# \\\n"] {
+            for c in ["# é c\n", "# \\\n", "# a\r print(0)\n"] {
                 out.push(mk(splice(src, t.end, 0, c), format!("comment line {:?} after token {}", c, i), EditKind::Neutral, t.end, 0, c.len()));
             }
             // c. blank line
@@ -220,7 +220,7 @@ pub fn edits(src: &str) -> Vec<Edit> {
 
 /// Layout edits inside the slots of interpolated strings (a slot holds an expression, so spaces,
 /// tabs and a leading line break or terminator there are layout): (variant text, description).
-pub fn slot_edits(src: &str) -> Vec<(String, String)> {
+pub fn slot_edits(src: &str) -> Vec<(String, String, usize, usize)> {
     use crate::refm::lex::Piece;
     let (toks, err) = lex_raw(src);
     let mut out = vec![];
@@ -241,10 +241,10 @@ pub fn slot_edits(src: &str) -> Vec<(String, String)> {
                     let open = off + 2;
                     let close = open + stext.len();
                     for (ins, name) in [(" ", "space"), ("\t", "tab"), ("\n", "line break"), (";", "terminator"), ("  \n ", "spaces and a line break"), ("# c\n", "comment, then a line break")] {
-                        out.push((splice(src, open, 0, ins), format!("{} at the start of slot {} of string token {}", name, si, i)));
+                        out.push((splice(src, open, 0, ins), format!("{} at the start of slot {} of string token {}", name, si, i), open, ins.len()));
                     }
                     for (ins, name) in [(" ", "space"), ("\t", "tab")] {
-                        out.push((splice(src, close, 0, ins), format!("{} at the end of slot {} of string token {}", name, si, i)));
+                        out.push((splice(src, close, 0, ins), format!("{} at the end of slot {} of string token {}", name, si, i), close, ins.len()));
                     }
                     // between the tokens of the slot expression: a space after every token; after a
                     // continuation token also a line break, and a comment (holding a quote) with a line break
@@ -254,10 +254,10 @@ pub fn slot_edits(src: &str) -> Vec<(String, String)> {
                             if st.tok == Tok::End {
                                 continue;
                             }
-                            out.push((splice(src, open + st.end, 0, " "), format!("space after token {} inside slot {} of string token {}", ti, si, i)));
+                            out.push((splice(src, open + st.end, 0, " "), format!("space after token {} inside slot {} of string token {}", ti, si, i), open + st.end, 1));
                             if is_cont(st) && !matches!(&st.tok, Tok::Sym(x) if *x == "{") {
-                                out.push((splice(src, open + st.end, 0, "\n  "), format!("line break after continuation token {} inside slot {} of string token {}", ti, si, i)));
-                                out.push((splice(src, open + st.end, 0, " # the \"q\n"), format!("comment holding a quote after continuation token {} inside slot {} of string token {}", ti, si, i)));
+                                out.push((splice(src, open + st.end, 0, "\n  "), format!("line break after continuation token {} inside slot {} of string token {}", ti, si, i), open + st.end, 3));
+                                out.push((splice(src, open + st.end, 0, " # the \"q\n"), format!("comment holding a quote after continuation token {} inside slot {} of string token {}", ti, si, i), open + st.end, 10));
                             }
                         }
                     }
